@@ -200,6 +200,12 @@ def run():
     opts = [["-greedy"], ["-greedy", "-size"], ["-greedy", "-length"], ["-greedy", "-push0"], ["-greedy", "-size", "-push0"],
             ["-greedy", "-partition"], ["-greedy", "-size", "-storage"], ["-greedy", "-length", "-partition"]]
     cases = common.gen_cases(n, common.seed(), opts, k_states=12 if quick else 32)
+    # ties in the selected criterion: blocks whose alternatives trade gas, bytes and instruction count against each other
+    tr = common.gen_cases(n // 5, common.seed() + 88, opts, kinds=["tradeoff"], k_states=12 if quick else 32)
+    for c in tr:
+        c["idx"] += len(cases)
+        c.pop("want_sample", None)
+    cases = sorted(cases + tr, key=lambda c: c["_group"])
     # candidate selection among original / greedy / solver (-ub-greedy) with good and bad solver candidates
     from monitors import c06
     rs = random.Random(common.seed() + 808)
